@@ -134,6 +134,10 @@ def ref_leaf(name, v):
         return _enum_like([(m.value, m) for m in grammar.EnumInt], v, 'enum')
     if name == 'enum_str':
         return _enum_like([(m.value, m) for m in grammar.EnumStr], v, None)
+    if name == 'enum_strmix':
+        return _enum_like([(m.value, m) for m in grammar.EnumStrMix], v if type(v) is not grammar.EnumStrMix else v.value, 'enum')
+    if name == 'enum_intmix':
+        return _enum_like([(m.value, m) for m in grammar.EnumIntMix], v, 'enum')
     if name == 'enum_mixed':
         return _enum_like([(m.value, m) for m in grammar.EnumMixed], v, 'enum')
     if name == 'lit_str':
@@ -432,7 +436,7 @@ LEAF_MEMBERS: t.Dict[str, t.List[t.Any]] = {
     'pattern': ['a+b', ''], 'pattern_bytes': [b'a+'],
     'purepath': ['a/b'], 'pureposixpath': ['/a/b'], 'path': ['a/b'], 'pathlike': ['a/b'],
     'any': [1, 'a', [1, 'x'], {'a': [1]}, None],
-    'enum_int': [1, 2], 'enum_str': ['x', 'y'], 'enum_mixed': [1, 's', None],
+    'enum_int': [1, 2], 'enum_str': ['x', 'y'], 'enum_mixed': [1, 's', None], 'enum_strmix': ['red', 'blue'], 'enum_intmix': [1, 2],
     'lit_str': ['a', 'b'], 'lit_mixed': [1, 'a', None],
     'sub_str': ['abc'], 'sub_int': [5], 'sub_float': [2.5, 2],
     'sub_list': [[1, 'a']], 'sub_dict': [{'a': 1}],
@@ -598,6 +602,12 @@ def dc_near(spec) -> t.List[t.Any]:
         d['another'] = 2
         out.append(d)                               # missing + two extras
     out.append({**full, 'zz': 0, 'yy': 0, 'xx': 0})
+    for f in fields:
+        if isinstance(f['type'], str) and f['type'] in grammar.DC_SPECS:
+            inner = grammar.DC_SPECS[f['type']]
+            key = classes_gen.input_names(f, opts)[0][0]
+            for bad in _multi_fault(inner):
+                out.append({**{k: x for k, x in full.items() if k != key}, key: bad})
     if 'tuple' in opts.get('in_format', ['struct']):
         lo, hi = classes_gen.positional_range(spec)
         pos = [f for f in fields if not f['kw_only']]
@@ -606,6 +616,35 @@ def dc_near(spec) -> t.List[t.Any]:
         out.append(vals + [1, 2])
         if lo > 0:
             out.append(vals[:lo - 1])
+    return out
+
+
+def _multi_fault(spec) -> t.List[t.Any]:
+    """Mapping data for `spec` with several faults at once: a failing (possibly nested) child next to a missing required
+    field and / or an unknown key - so that a product node with one failing child also carries missing / extra."""
+    opts = spec.get('opts', {})
+    fields = [f for f in classes_gen.effective_fields(spec) if f.get('init', True)]
+    full = {classes_gen.input_names(f, opts)[0][0]: members(f['type'])[0] for f in fields}
+    keys = list(full)
+    out = []
+    first = fields[0]
+    if isinstance(first['type'], str) and first['type'] in grammar.DC_SPECS:
+        inner = grammar.DC_SPECS[first['type']]
+        ifields = [f for f in classes_gen.effective_fields(inner) if f.get('init', True)]
+        ifull = {classes_gen.input_names(f, inner.get('opts', {}))[0][0]: members(f['type'])[0] for f in ifields}
+        ikeys = list(ifull)
+        child_bad = dict(ifull)
+        child_bad[ikeys[0]] = [['bad']]
+    else:
+        child_bad = [['bad']]
+    req = [classes_gen.input_names(f, opts)[0][0] for f in fields[1:] if not classes_gen.has_default(f)]
+    d = dict(full)
+    d[keys[0]] = child_bad
+    out.append(dict(d, bogus=1))
+    if req:
+        d2 = {k: x for k, x in d.items() if k != req[0]}
+        out.append(d2)
+        out.append(dict(d2, bogus=1))
     return out
 
 
@@ -640,8 +679,10 @@ def check_serial(ast, x, d, path='$') -> t.Optional[str]:
             want = x.isoformat()
         elif ast in ('pattern', 'pattern_bytes'):
             want = x.pattern
-        elif ast in ('enum_int', 'enum_str', 'enum_mixed'):
+        elif ast in ('enum_int', 'enum_str', 'enum_mixed', 'enum_strmix', 'enum_intmix'):
             want = x.value
+            if ast == 'enum_intmix':
+                want = int(want)
         else:
             return None          # any / bare containers / container subclasses: serialised by runtime type, not modelled
         if not values.typed_eq(want, d):
